@@ -8,7 +8,7 @@ import (
 	"github.com/emersion/go-webdav/vsim/rt"
 )
 
-var statusFaultKinds = []string{"status-empty", "status-text", "status-long-text", "status-daverror", "status-xml-garbage", "status-html", "status-keep-body"}
+var statusFaultKinds = []string{"status-empty", "status-text", "status-long-text", "status-daverror", "status-daverror-large", "status-xml-garbage", "status-html", "status-keep-body", "early-status"}
 
 // GenC14 drives every public client method of the three packages against the
 // real handlers while the transport damages the exchange.
